@@ -276,13 +276,18 @@ pub fn run(cases_path: &str, out_path: &str, tier: &str, seed: u64) {
                 // ---- cleartext framework (needs valid UTF-8)
                 if let Ok(text) = std::str::from_utf8(&data) {
                     let fkey = if representable { "cleartext" } else { "cleartext_final_cr" };
-                    for iface in ["cleartext_sign", "cleartext_new_many"] {
-                        if !applies(iface, "cleartext_verify") {
+                    // ("cleartext_new_*": the low-level entry point with a caller-made configuration of either signature type; both are
+                    //  refinements of the specification's cleartext_sign: the framework signs the RFC signed form)
+                    for iface in ["cleartext_sign", "cleartext_new_many", "cleartext_new_text_config", "cleartext_new_binary_config"] {
+                        if !applies(if iface.starts_with("cleartext_new_") && iface.ends_with("_config") { "cleartext_sign" } else { iface }, "cleartext_verify") {
                             continue;
                         }
                         let r = guard(|| -> Result<(), String> {
                             let m = if iface == "cleartext_sign" {
                                 CleartextSignedMessage::sign(rng(seed), text, &k.sec.primary_key, &Password::empty()).map_err(|e| e.to_string())?
+                            } else if iface.ends_with("_config") {
+                                let typ = if iface == "cleartext_new_text_config" { SignatureType::Text } else { SignatureType::Binary };
+                                CleartextSignedMessage::new(text, mkcfg(&k.sec, typ, h, seed).map_err(|e| e.to_string())?, &k.sec.primary_key, &Password::empty()).map_err(|e| e.to_string())?
                             } else {
                                 CleartextSignedMessage::new_many(text, |st| Ok(vec![mkcfg(&k.sec, SignatureType::Text, h, seed)?.sign(&k.sec.primary_key, &Password::empty(), st.as_bytes())?])).map_err(|e| e.to_string())?
                             };
